@@ -37,3 +37,46 @@ Theorem C11_var_has_ops_exact : forall (sl : slots) v,
   var_has_ops sl v = true <-> exists o, In (Some o) sl /\ In v (o_vars o).
 Proof. exact var_has_ops_spec. Qed.
 Print Assumptions C11_var_has_ops_exact.
+
+(* ------------------------------------------------------------------------------------------- *)
+(* Refinement: the optimised container's linked structure, transcribed branch by branch from
+   FastOps::mutate_p (Model/FastOps.v: quick install / unlink / relink / cursor advance), always
+   equals the structure a scan of its contents yields. *)
+From QmcV Require Import Model.FastOps Proofs.FastOpsProofs.
+
+(* one mutation: started from the scan-derived structure and cursor, [mutate_p] ends in the
+   scan-derived structure and cursor of the updated slots — for every string, position, decision
+   (no-op, removal, same-variable replace, different-variable replace, insertion) *)
+Theorem C11_mutate_p_refines : forall nvars nb sl p dec,
+  p < length sl -> wf_decision nvars nb dec -> wf_slots nvars nb sl ->
+  mutate_p (build nvars nb sl) p dec (scan_cursor nvars sl p)
+  = (build nvars nb (apply_dec sl p dec), scan_cursor nvars (apply_dec sl p dec) (S p)).
+Proof. exact mutate_p_refines. Qed.
+Print Assumptions C11_mutate_p_refines.
+
+(* any run of consecutive mutations with any decisions: every reachable structure is the scan of
+   its own contents (first/last, per-variable ends, all predecessor/successor links, n, counters) *)
+Theorem C11_sweep_invariant : forall nvars nb decs sl a,
+  a + length decs <= length sl -> Forall (wf_decision nvars nb) decs -> wf_slots nvars nb sl ->
+  let F := fst (FastOps.sweep (build nvars nb sl) (scan_cursor nvars sl a) a decs) in
+  contents F = apply_decs sl a decs /\ F = build nvars nb (contents F).
+Proof. exact sweep_invariant. Qed.
+Print Assumptions C11_sweep_invariant.
+
+(* construction and cutoff growth establish / preserve the invariant *)
+Theorem C11_new_container_is_scan : forall nvars nb, new_fops nvars nb = build nvars nb [].
+Proof. exact new_fops_is_build. Qed.
+Print Assumptions C11_new_container_is_scan.
+
+Theorem C11_cutoff_growth_refines : forall nv nb sl pend,
+  resize_ops (build nv nb sl) pend = build nv nb (sl ++ repeat None (pend - length sl)).
+Proof. exact resize_refines. Qed.
+Print Assumptions C11_cutoff_growth_refines.
+
+(* the cursor / node agreement that mutate_p double-checks with debug assertions *)
+Theorem C11_cursor_matches_node : forall nv nb sl p old, wf_slots nv nb sl -> nth_error sl p = Some (Some old) ->
+  let a := scan_cursor nv sl p in let nd := build_node sl p old in
+  a_last_p a = n_prev nd /\ forall relv v, nth_error (o_vars old) relv = Some v ->
+    nth v (a_last a) None = nth relv (n_prev_v nd) None.
+Proof. exact cursor_matches_node. Qed.
+Print Assumptions C11_cursor_matches_node.
